@@ -1131,6 +1131,10 @@ where
                         for tx in notifies {
                             let _ = tx.send(());
                         }
+                    } else {
+                        // Receiver was closed gracefully before and is now gone for good:
+                        // senders that override the graceful close must fail as well.
+                        sender_credit_provider.close(false);
                     }
 
                     *remote_receiver_dropped = true;
